@@ -201,12 +201,54 @@ def _check_trace_one(ctx, rep):
         rep.undecided("T3'", f, "trace test", "expected one closeness comparison, found %d" % len(sites))
         return
     call, sp = sites[0]
-    a = inline(f, arg(call, sp["a"], "a"))
+    a0 = arg(call, sp["a"], "a")
+    a = inline(f, a0)
     b = inline(f, arg(call, sp["b"], "b"))
     ok_a = isinstance(a, ast.Call) and (dotted(a.func) or "").endswith("trace")
     # the reference must be the literal one, on either side
     if not ok_a and isinstance(b, ast.Call) and (dotted(b.func) or "").endswith("trace"):
         a, b, ok_a = b, a, True
+    if not ok_a and isinstance(a0, ast.Name):
+        # the compared quantity is bound on several paths: each binding must be a trace of the density matrix, or the
+        # coefficient-0 shortcut sqrt(d) * vec[0], which is the trace only in an orthonormal Hermitian basis whose 0th element is
+        # proportional to the identity (the flag is_orthonormal_hermitian_0thprop_identity)
+        from ..astutil import guards_of
+        from .c03 import _size_poly, Undecided as _Und
+        from ..poly import Poly
+        from fractions import Fraction
+        binds = [n for n in own_nodes(f.node) if isinstance(n, ast.Assign) and len(n.targets) == 1 and isinstance(n.targets[0], ast.Name)
+                 and n.targets[0].id == a0.id]
+        decided = bool(binds) and is_num(b, 1)
+        for bd in binds:
+            v = inline(f, bd.value)
+            g = {t: pol for t, pol, _ in guards_of(bd)}
+            con = "%s = %s" % (a0.id, unparse(bd.value)[:80])
+            if isinstance(v, ast.Call) and (dotted(v.func) or "").endswith("trace") and v.args and isinstance(v.args[0], ast.Call) \
+                    and "density_matrix" in (dotted(v.args[0].func) or ""):
+                rep.holds("T3'", f, con, "trace(density matrix)", node=bd)
+                continue
+            short = None
+            if isinstance(v, ast.BinOp) and isinstance(v.op, ast.Mult):
+                for coef, sub in ((v.left, v.right), (v.right, v.left)):
+                    if isinstance(sub, ast.Subscript) and is_num(sub.slice, 0) and unparse(sub.value) in ("self._vec", "self.vec"):
+                        try:
+                            short = _size_poly(coef, f) == Poly.sym("d") ** Fraction(1, 2)
+                        except _Und:
+                            short = None
+            if short is None:
+                decided = False
+                continue
+            flag = [pol for t, pol in g.items() if t.endswith("is_orthonormal_hermitian_0thprop_identity")]
+            if short and flag == [True]:
+                rep.holds("T3'", f, con, "sqrt(d) * vec[0] under is_orthonormal_hermitian_0thprop_identity", node=bd)
+            elif not short:
+                rep.violation("T3'", f, con, "the coefficient-0 shortcut for the trace must be sqrt(d) * vec[0]", node=bd)
+            else:
+                rep.violation("T3'", f, con, "the coefficient-0 shortcut sqrt(d) * vec[0] equals the trace only in an orthonormal Hermitian basis whose 0th "
+                                             "element is proportional to the identity (is_orthonormal_hermitian_0thprop_identity); here it is taken under %s"
+                              % (sorted(("" if pol else "not ") + t for t, pol in g.items()) or "no condition"), node=bd)
+        if decided:
+            return
     if not ok_a:
         rep.undecided("T3'", f, call, "compared quantity is not a trace(...) call")
         return
